@@ -342,6 +342,14 @@ func (eng *Engine) report(prop, tier, verifDir string, units []*FuncUnit, report
 	for _, u := range eng.undecided {
 		fmt.Println("UNDECIDED:", u)
 	}
+	for _, m := range eng.missing {
+		for _, q := range m.props {
+			if q == prop {
+				total++
+				failed = append(failed, &Obligation{Name: m.name, Kind: "scope", Func: m.name, Pos: m.pos, Desc: m.desc, Expect: "unsat", Status: "missing", Solver: "loader", Output: "not found in /repo's current source"})
+			}
+		}
+	}
 	if verbose {
 		for _, d := range deadReturns {
 			fmt.Println("  note: return unreachable under the contract's assumptions:", d)
